@@ -326,15 +326,10 @@ Section Methods.
 
   Definition m_ior (l : list (K * V)) : P (res unit) := locked MIor (m_update l).
 
+  (* `if self is other: return True` (not the case for a plain dict); `return super().__eq__(other)` *)
   Definition m_eq_dict (l : list (K * V)) : P (res bool) :=
     locked MEq (
-      Act ADLen (fun n =>
-        match n with
-        | XNat n =>
-            if negb (Nat.eqb (length l) n) then Ret (Ok false)
-            else Act (ADEq l) (fun b => match b with XBool b => Ret (Ok b) | _ => Ret (Raise crash) end)
-        | _ => Ret (Raise crash)
-        end)).
+      Act (ADEq l) (fun b => match b with XBool b => Ret (Ok b) | _ => Ret (Raise crash) end)).
 
   Definition m_eq_self : P (res bool) := locked MEq (Ret (Ok true)).
 
